@@ -1454,6 +1454,11 @@ class Node:
             del self._half_ready_connections[conn.ident]
         if self.socket_peers.get(conn.socket_fileno) is conn:
             del self.socket_peers[conn.socket_fileno]
+        # a CEA may have named another configured peer as its Origin-Host, in
+        # which case that peer references this connection as well
+        for other_peer in self.peers.values():
+            if other_peer.connection is conn:
+                other_peer.connection = None
         peer = self._find_connection_peer(conn)
         if peer and peer.connection in (conn, None):
             # unset so that a new connection may be made later
